@@ -546,7 +546,7 @@ def run_rate_stream(ctx, N, stats):
     from vf.props import FISTA
     if not build_driver(ctx, "solve"): return
     cases = gen_rate_runs(ctx, N)
-    outs = run_driver(ctx, "solve", "".join(c.rq.to_input() for c in cases), timeout=1500)
+    outs = run_driver(ctx, "solve", [c.rq.to_input() for c in cases], timeout=1500)
     if outs is None or len(outs) != len(cases):
         ctx.broke("correspondence", "drv_solve (rate stream)", "driver produced %s results for %d runs" % (None if outs is None else len(outs), len(cases)))
         return
@@ -657,7 +657,7 @@ def run(ctx):
                 ctx.case("replay")
             return
     cases = gen_cases(ctx)
-    outs = run_driver(ctx, "C08", "\n".join(to_input(c) for c in cases) + "\n", timeout=1500)
+    outs = run_driver(ctx, "C08", [(to_input(c)) + "\n" for c in cases], timeout=1500)
     if outs is None or len(outs) != len(cases):
         ctx.broke("correspondence", "drv_C08", "driver returned %s lines for %d cases; rc=%s %s" % (None if outs is None else len(outs), len(cases), getattr(ctx, "driver_rc", "?"), getattr(ctx, "driver_err", "")))
         return
